@@ -3,6 +3,8 @@ package c20
 import (
 	"bytes"
 	"fmt"
+	"reflect"
+	"sort"
 	"strings"
 
 	"github.com/miekg/dns"
@@ -263,7 +265,7 @@ func checkPair(c pairCase) error {
 		keys = append(keys, key(r))
 	}
 	// the same three records decoded from one compressed message must relate in the same way
-	if mrrs := fromOneMessage(recs); mrrs != nil {
+	if mrrs := fromOneMessage(recs); mrrs != nil && !(pbt.Known("svcb-unpackable-value") && (unpackableParam(c.A) || unpackableParam(c.B) || unpackableParam(c.C))) {
 		for i := range mrrs {
 			for j := range mrrs {
 				if got, want := dns.IsDuplicate(mrrs[i], mrrs[j]), keys[i] == keys[j]; got != want {
@@ -281,6 +283,24 @@ func checkPair(c pairCase) error {
 	pbt.Note(append(append(wa, '|'), wb...), near, "how:"+c.How, "type:"+typeName(c.A.Type))
 	if near {
 		pbt.Sample("how:"+c.How, rrs[0].String()+"  |  "+rrs[1].String())
+	}
+	odd := make([]bool, len(recs))
+	anyOdd := false
+	for i, r := range recs {
+		odd[i] = unpackableParam(r)
+		anyOdd = anyOdd || odd[i]
+	}
+	if anyOdd && pbt.Known("svcb-unpackable-value") {
+		// only the "different records are not duplicates" half can be asserted
+		pbt.Excluded("svcb-unpackable-value")
+		for i := range rrs {
+			for j := range rrs {
+				if keys[i] != keys[j] && dns.IsDuplicate(rrs[i], rrs[j]) {
+					return pbt.Errf("IsDuplicate=true for records with different RDATA (%s):\n  %s\n  %s", c.How, rrs[i], rrs[j])
+				}
+			}
+		}
+		return nil
 	}
 	for i := range rrs {
 		for j := range rrs {
@@ -329,6 +349,40 @@ func checkPair(c pairCase) error {
 			return pbt.Errf("a hand-built %s record is not a duplicate of its own copy: %s", typeName(recs[i].Type), raw[i])
 		}
 	}
+	// ... and a name written without its final dot is not the name written with it (a relative
+	// name is another name, or none; the comparison may ignore letter case and nothing else)
+	for i := range cons {
+		rel := dns.Copy(cons[i])
+		changed := false
+		if n := rel.Header().Name; len(n) > 1 && strings.HasSuffix(n, ".") && !strings.HasSuffix(n, `\.`) {
+			rel.Header().Name = strings.TrimSuffix(n, ".")
+			changed = true
+		}
+		if !changed {
+			layout, _ := wm.LayoutOf(recs[i].Type)
+			v := reflect.ValueOf(rel).Elem()
+			for _, sp := range layout {
+				if sp.K != wm.NameC && sp.K != wm.NameU {
+					continue
+				}
+				if f := v.FieldByName(sp.Go); f.IsValid() && f.Kind() == reflect.String {
+					if n := f.String(); len(n) > 1 && strings.HasSuffix(n, ".") && !strings.HasSuffix(n, `\.`) {
+						f.SetString(strings.TrimSuffix(n, "."))
+						changed = true
+						break
+					}
+				}
+			}
+		}
+		if changed && !recs[i].NoRdata {
+			if dns.IsDuplicate(cons[i], rel) || dns.IsDuplicate(rel, cons[i]) {
+				return pbt.Errf("a record and the same record with one name written without its final dot are reported as duplicates:\n  %s\n  %s", cons[i], rel)
+			}
+			if !dns.IsDuplicate(rel, rel) {
+				return pbt.Errf("IsDuplicate is not reflexive on %s", rel)
+			}
+		}
+	}
 	all := append(append(append([]dns.RR{}, rrs...), cons...), raw...)
 	for i := range all {
 		if !dns.IsDuplicate(all[i], all[i]) {
@@ -346,6 +400,27 @@ func checkPair(c pairCase) error {
 		}
 	}
 	return nil
+}
+
+// unpackableParam: the record carries a SvcParam value the decoder accepts and the packer refuses
+// (an empty alpn-id). Known finding svcb-unpackable-value: such a record is not a duplicate of
+// itself; that it is not a duplicate of a DIFFERENT record is still asserted.
+func unpackableParam(r wm.Rec) bool {
+	for _, f := range r.Fields {
+		if f.K != wm.Params {
+			continue
+		}
+		for _, o := range f.Opts {
+			if o.Code == 1 {
+				for i := 0; i < len(o.Data); i += 1 + int(o.Data[i]) {
+					if o.Data[i] == 0 {
+						return true
+					}
+				}
+			}
+		}
+	}
+	return false
 }
 
 func reverseParams(rr dns.RR) {
@@ -374,7 +449,39 @@ func dupTypes() []uint16 {
 func derive(t *rapid.T, a wm.Rec) (wm.Rec, string) {
 	b := cloneRec(a)
 	layout, _ := wm.LayoutOf(a.Type)
-	switch rapid.IntRange(0, 10).Draw(t, "how") {
+	switch rapid.IntRange(0, 11).Draw(t, "how") {
+	case 11:
+		// SVCB/HTTPS with a parameter value the decoder accepts but the packer refuses (an empty
+		// alpn-id): A and B differ inside that value
+		if a.Type == wm.TSVCB || a.Type == wm.THTTPS {
+			for i := range a.Fields {
+				if a.Fields[i].K == wm.Params {
+					var rest []wm.Option
+					for _, o := range a.Fields[i].Opts {
+						if o.Code != 1 {
+							rest = append(rest, o)
+						}
+					}
+					other := byte('2' + rapid.IntRange(1, 7).Draw(t, "alpnother"))
+					order := rapid.Bool().Draw(t, "emptyfirst")
+					mk := func(last byte) []wm.Option {
+						d := []byte{0, 2, 'h', last}
+						if !order {
+							d = []byte{2, 'h', last, 0}
+						}
+						out := append([]wm.Option{}, rest...)
+						out = append(out, wm.Option{Code: 1, Data: d})
+						sort.Slice(out, func(x, y int) bool { return out[x].Code < out[y].Code })
+						return out
+					}
+					a.Fields[i].Opts = mk('2')
+					b = cloneRec(a)
+					b.Fields[i].Opts = mk(other)
+					return b, "unpackable-svcparam"
+				}
+			}
+		}
+		return b, "identical"
 	case 10:
 		// one octet of a name replaced by an octet that some case-folding table pairs with another
 		// one (Latin-1 letters, the punctuation next to the ASCII letters): A gets one, B its partner.
@@ -712,6 +819,17 @@ func genDedup(t *rapid.T) dedupCase {
 }
 
 func init() {
+	pbt.Probe("svcb-unpackable-value", func() error {
+		w := []byte{1, 'x', 0, 0, 64, 0, 1, 0, 0, 0, 9, 0, 11, 0, 1, 0, 0, 1, 0, 4, 0, 2, 'h', '2'}
+		rr, _, err := dns.UnpackRR(w, 0)
+		if err != nil {
+			return nil // the decoder refuses the value: nothing to compare
+		}
+		if !dns.IsDuplicate(rr, rr) || !dns.IsDuplicate(rr, dns.Copy(rr)) {
+			return pbt.Errf("%s (decoded from the wire) is not a duplicate of itself / of its copy", rr)
+		}
+		return nil
+	})
 	pbt.Register(pbt.Sub[pairCase]{Name: "isduplicate", Weight: 20, Gen: genPair, Check: checkPair})
 	pbt.RegisterEnum(pbt.Enum[pairCase]{Name: "every-field-of-every-type", Exhaustive: true, Each: eachFieldChange, Check: checkPair})
 	pbt.Register(pbt.Sub[dedupCase]{Name: "dedup", Weight: 10, Gen: genDedup, Check: checkDedup})
